@@ -29,7 +29,7 @@ GROUPS = {
     ('insert_slice_interleave_is_model', 'insert_slice_interleave_eq'), ('insert_sample_interleave_is_model', 'insert_sample_interleave_eq'),
     ('slice_step_is_model', 'pyStep_eq'), ('get_changed_class_no_slice_dim_is_model', 'get_changed_class_none_eq')]),
  'insert': ('dcmmeta.py: per-key dictionary edits of merges (_change_class, _insert_slice, _insert_non_slice, _insert_sample)',
-   [('change_class_is_model', 'change_class_eq'), ('reclassify_is_model', 'reclassify_eq'), ('insert_slice_is_model', 'insert_slice_eq'),
+   [('change_class_is_model', 'change_class_eq'), ('reclassify_is_model', 'reclassify_eq'), ('insert_dispatch_is_model', 'insert_dispatch_eq'), ('insert_slice_is_model', 'insert_slice_eq'),
     ('insert_non_slice_is_model', 'insert_non_slice_eq'), ('insert_sample_is_model', 'insert_sample_eq')]),
  'subset': ('dcmmeta.py: get_subset for one key of the parent (class dispatch, _copy_slice, _copy_sample)',
    [('copy_slice_is_model', 'copy_slice_eq'), ('copy_sample_is_model', 'copy_sample_eq'),
